@@ -184,6 +184,20 @@ CLAIMED = {
 
 NOT_YET = "not yet claimed: model and proof under construction (see DESIGN.md §8 implementation order)"
 
+# added in the round-7 strengthening (DESIGN.md 9.3): theorems about several sessions side by side, and what the probes beside the stories test
+EXTRA = {
+    "C02": " Two sessions of one process and refused batches: neighbour_probe (a write refused by one session's transport, then a batch on another), refused_batch_history_probe (send_messages calls of which some are refused must leave the Noise nonce sequence consecutive).",
+    "C04": " C04_plaintext_error_is_final (Proofs/PlainSticky.v: after a read that reported a complete wrong first byte a plaintext helper ends every later read in the error again and delivers nothing, for all later reads); probed on the real helper with later reads, and through APIClient with the expected name set before / between the connect phases.",
+    "C05": " C05_crowd_monotone (Proofs/Product.v, Proofs/ConnPair.v: beside any other connection of the process the state of a connection still only moves forward); crowd_probe (9 and more connections starting at once) and stale_awaitable_probe test that the code shares nothing between connections and evaluates its guards when a phase runs.",
+    "C07": " For sessions side by side: C07_sibling_sessions_independent, C07_sibling_never_blocks, C07_sibling_true_only_if_initiated_here (in the interleaving product of two connection machines each stop callback reports a graceful disconnect only if one was initiated on THAT connection); siblings_probe and foreign_loop_probe on the implementation.",
+    "C08": " Overlapping disconnect() calls and a client re-connected during a graceful disconnect are explored on the implementation only (the model has one disconnect task).",
+    "C09": " Other-platform branches: every module-level flag computed from sys.platform flipped x debug logging x message size, and the same probe with the library imported as on win32 in a child interpreter (vlib/otherplatform.py).",
+    "C10": " C10_neighbour_sessions_independent, C10_neighbour_all_runs (two keep-alive schedules side by side: each one's pings and death are those of its own run); every seventh schedule runs beside another live session with the same K established a fraction of K earlier.",
+    "C11": " deadline_probe: unanswered calls fail exactly at their timeout, on this platform and with the library imported as on win32.",
+    "C12": " C12_neighbour_sessions_independent (+ example: A's refused write, then B answers its ping with exactly one PingResponse); recycled_buffer_probe (reads in a refilled bytearray / pool memoryview, stream cut at every byte) and neighbour_answer_probe on the implementation.",
+    "C19": " C19_two_clients_independent, C19_never_wedged_beside_another_client (product of two client machines); fault_forms_probe (session deaths by non-OSError exceptions and write refusals by RuntimeError, with and without a call in flight).",
+}
+
 
 def main():
     checks = []
@@ -195,7 +209,7 @@ def main():
             "evidence_file": f"/verif/evidence/{pid}.json",
             "replay_cmd_template": f"./check {pid} --replay {{path}}",
             "engine": "coq-proof+correspondence",
-            "level_claimed": {"category": "proof", "text": c["text"], "design_ref": c["ref"]},
+            "level_claimed": {"category": "proof", "text": c["text"] + EXTRA.get(pid, ""), "design_ref": c["ref"]},
             "level_note": c["note"],
             "technique": c["tech"],
         })
